@@ -5,7 +5,7 @@ import MpVerif.C09.Model
 namespace MpVerif.C09
 
 /-- raise kinds whose object is built by a ctor that leaves `exit_code_` at its in-class
-initialiser `EXIT_FAILURE` (= 1): they are reported with solve code 1. -/
+initialiser `EXIT_FAILURE` (= 1): before abd397a they were reported with solve code 1, now with 500. -/
 def Raise.exitFailureCtor : Raise → Bool
   | .unsupported | .readError | .fmtError => true
   | _ => false
@@ -58,14 +58,14 @@ theorem insideRun_false_iff (st : Stage) : st.insideRun = false ↔ st = .ctor :
   cases st <;> simp [Stage.insideRun]
 
 /-- `handleSolution` either raises, prints to stdout only, or writes exactly the given record
-(with `complete` = the path's `canFlush`). -/
+. -/
 theorem handleSolution_cases (a : Bool) (w : Nat) (out : OutPath) (f : SolFile) :
-    (wantsFile a w = true ∧ out.canOpen = false ∧ handleSolution a w out f = none) ∨
-    (wantsFile a w = true ∧ out.canOpen = true ∧
-      handleSolution a w out f = some (.sol { f with complete := out.canFlush } (!a && !suppressMsg w))) ∨
+    (wantsFile a w = true ∧ out.writable = false ∧ handleSolution a w out f = none) ∨
+    (wantsFile a w = true ∧ out.writable = true ∧
+      handleSolution a w out f = some (.sol f (!a && !suppressMsg w))) ∨
     (wantsFile a w = false ∧ handleSolution a w out f = some (.stdoutOnly f.code (!suppressMsg w))) := by
   unfold handleSolution
-  cases hw : wantsFile a w <;> cases ho : out.canOpen <;> simp
+  cases hw : wantsFile a w <;> cases ho : out.writable <;> simp
 
 /-- `reportError` on a non-foreign exception. -/
 theorem reportError_cases (a : Bool) (w : Nat) (out : OutPath) (h : Bool) (d : Dims) (x : Exn)
@@ -84,10 +84,10 @@ theorem toExn_foreign_iff (r : Raise) : r.toExn = .foreign ↔ r = .foreign := b
 theorem reportCode_of_raise (r : Raise) :
     r.toExn.reportCode =
       match r with
-      | .withCode c => if c ≥ 0 then c else 500
+      | .withCode c => if c ≥ 100 then c else 500
       | .infeas => 200
       | .solCheck => 150
-      | .unsupported | .readError | .fmtError => 1
+      | .wrappedInfeas => 200
       | _ => 500 := by
   cases r <;> simp [Raise.toExn, Exn.reportCode, solFAILURE, EXIT_FAILURE]
 
@@ -202,10 +202,10 @@ def okFile (sc : Scenario) (complete : Bool) : SolFile :=
 theorem conclude_finished (sc : Scenario) (a : Bool) (w : Nat) :
     conclude sc (.finished a w) =
       if wantsFile a w then
-        if sc.out.canOpen then .sol (okFile sc sc.out.canFlush) (!a && !suppressMsg w)
+        if sc.out.writable then .sol (okFile sc true) (!a && !suppressMsg w)
         else .stderrExit 1
       else .stdoutOnly sc.answer.code (!suppressMsg w) := by
-  cases hw : wantsFile a w <;> cases ho : sc.out.canOpen <;>
+  cases hw : wantsFile a w <;> cases ho : sc.out.writable <;>
     simp [conclude, handleSolution, hw, ho, reportError, orStderr, okFile]
 
 /-- Normal form of `conclude` on a run ended by a (non-foreign) exception. -/
@@ -214,7 +214,7 @@ theorem conclude_raised (sc : Scenario) (a : Bool) (w : Nat) (st : Stage) (r : R
       if st.insideRun then
         if st.handlerAvailable then
           if wantsFile a w then
-            if sc.out.canOpen then .sol (errFile sc st r sc.out.canFlush) (!a && !suppressMsg w)
+            if sc.out.writable then .sol (errFile sc st r true) (!a && !suppressMsg w)
             else .stderrExit 1
           else .stdoutOnly r.toExn.reportCode (!suppressMsg w)
         else .stderrExit 1
@@ -226,7 +226,7 @@ theorem conclude_raised (sc : Scenario) (a : Bool) (w : Nat) (st : Stage) (r : R
   cases hi : st.insideRun
   · cases hx : r.toExn <;> simp [conclude, fail, hi, hx]
     exact absurd hx hf
-  · cases hh : st.handlerAvailable <;> cases hw : wantsFile a w <;> cases ho : sc.out.canOpen <;>
+  · cases hh : st.handlerAvailable <;> cases hw : wantsFile a w <;> cases ho : sc.out.writable <;>
       simp [conclude, fail, hi, reportError_cases _ _ _ _ _ _ hf, hh, handleSolution, hw, ho, orStderr, errFile, errDims]
 
 theorem conclude_foreign (sc : Scenario) (a : Bool) (w : Nat) (st : Stage) :
@@ -235,15 +235,11 @@ theorem conclude_foreign (sc : Scenario) (a : Bool) (w : Nat) (st : Stage) :
 
 /-- An ending outside the deviation classes. -/
 def Regular (sc : Scenario) (e : Ending) : Prop :=
-  -- writeerr
-  (sc.out.canOpen = true → sc.out.canFlush = true) ∧
   match e with
   | .info => True
   | .finished a w => wantsFile a w = true                                   -- standalone
   | .raised a w st r =>
       r ≠ .foreign ∧                                                          -- foreign
-      r.exitFailureCtor = false ∧                                             -- code1
-      r ≠ .wrappedInfeas ∧                                                    -- infeas500
       (st = .options → sc.dims = ⟨0, 0⟩) ∧                                    -- optdims
       (st = .populate → sc.partialDims = sc.dims) ∧                               -- hdrdims
       (st.handlerAvailable = true → wantsFile a w = true) ∧                   -- standalone
